@@ -118,3 +118,47 @@ func writePDF(p Page) []byte {
 	fmt.Fprintf(&buf, "trailer\n<< /Size %d /Root 1 0 R >>\nstartxref\n%d\n%%%%EOF\n", len(offs)+1, xref)
 	return buf.Bytes()
 }
+
+// writePDFPages writes a document of several pages (same structure as writePDF: objects 1-5
+// catalog, page tree, two fonts, the ToUnicode CMap; then a page object and its content stream
+// per page). A page without fragments has an empty content stream.
+func writePDFPages(ps []Page) []byte {
+	var buf bytes.Buffer
+	var offs []int
+	obj := func(body string) {
+		offs = append(offs, buf.Len())
+		fmt.Fprintf(&buf, "%d 0 obj\n%s\nendobj\n", len(offs), body)
+	}
+	buf.WriteString("%PDF-1.4\n%\xe2\xe3\xcf\xd3\n")
+	obj("<< /Type /Catalog /Pages 2 0 R >>")
+	var kids []string
+	for i := range ps {
+		kids = append(kids, fmt.Sprintf("%d 0 R", 6+2*i))
+	}
+	obj(fmt.Sprintf("<< /Type /Pages /Count %d /Kids [%s] >>", len(ps), strings.Join(kids, " ")))
+	obj("<< /Type /Font /Subtype /Type1 /BaseFont /Helvetica /Encoding /WinAnsiEncoding >>")
+	obj("<< /Type /Font /Subtype /Type1 /BaseFont /Helvetica /ToUnicode 5 0 R >>")
+	cm := toUnicodeCMap()
+	obj(fmt.Sprintf("<< /Length %d >>\nstream\n%sendstream", len(cm), cm))
+	for i, p := range ps {
+		obj(fmt.Sprintf("<< /Type /Page /Parent 2 0 R /MediaBox [0 0 %s %s] /Resources << /Font << /F1 3 0 R /F2 4 0 R >> >> /Contents %d 0 R >>",
+			dec(p.W, p.Den), dec(p.H, p.Den), 7+2*i))
+		var cs bytes.Buffer
+		for _, f := range p.F {
+			font, codes, ok := encodeText(f.T)
+			if !ok {
+				continue
+			}
+			fmt.Fprintf(&cs, "BT\n/%s %s Tf\n1 0 0 1 %s %s Tm\n(%s) Tj\nET\n", font, dec(f.FS, p.Den), dec(f.X, p.Den), dec(f.Y, p.Den), pdfEscape(codes))
+		}
+		obj(fmt.Sprintf("<< /Length %d >>\nstream\n%sendstream", cs.Len(), cs.String()))
+	}
+	xref := buf.Len()
+	fmt.Fprintf(&buf, "xref\n0 %d\n", len(offs)+1)
+	buf.WriteString("0000000000 65535 f \n")
+	for _, o := range offs {
+		fmt.Fprintf(&buf, "%010d %05d n \n", o, 0)
+	}
+	fmt.Fprintf(&buf, "trailer\n<< /Size %d /Root 1 0 R >>\nstartxref\n%d\n%%%%EOF\n", len(offs)+1, xref)
+	return buf.Bytes()
+}
